@@ -35,6 +35,47 @@ type ownAnalysis struct {
 	mutates map[*ssa.Function]map[int]string // param index -> reason
 	capture map[*ssa.Function]map[int]string
 	retRef  map[*ssa.Function]map[int]bool
+	// retHold: the function returns a freshly allocated struct whose field (key) was filled with a
+	// reference rooted at the parameter (value): the struct is new, what that field points to is not.
+	retHold map[*ssa.Function]map[int]int
+}
+
+// heldInField: the origin of what is loaded from field `field` of the struct at address base, when base
+// itself is fresh memory (a new struct of this function, or the fresh result of a repository function):
+// the field holds whatever was stored into it, and a reference stored there still points into its root.
+func (o *ownAnalysis) heldInField(base ssa.Value, field int, t types.Type) origin {
+	k := kindForValue(t)
+	if k == oNone {
+		return origin{}
+	}
+	switch a := base.(type) {
+	case *ssa.Alloc:
+		for _, ref := range *a.Referrers() {
+			fa, ok := ref.(*ssa.FieldAddr)
+			if !ok || fa.Field != field {
+				continue
+			}
+			for _, rr := range *fa.Referrers() {
+				if st, isSt := rr.(*ssa.Store); isSt && st.Addr == ssa.Value(fa) {
+					if so := o.origin(st.Val); so.kind == oRef || so.kind == oVal {
+						return origin{root: so.root, kind: k, viaToken: so.viaToken}
+					}
+				}
+			}
+		}
+	case *ssa.Call:
+		for _, callee := range o.p.CG().Callees(a) {
+			if pi, ok := o.retHold[callee][field]; ok {
+				args := callArgs(&a.Call)
+				if pi < len(args) {
+					if so := o.origin(args[pi]); so.kind != oNone {
+						return origin{root: so.root, kind: k, viaToken: so.viaToken}
+					}
+				}
+			}
+		}
+	}
+	return origin{}
 }
 
 func isTokenType(t types.Type) bool {
@@ -145,6 +186,9 @@ func (o *ownAnalysis) origin1(v ssa.Value) origin {
 				return origin{}
 			}
 			return origin{root: b.root, kind: k, viaToken: b.viaToken}
+		}
+		if fa, isFA := x.X.(*ssa.FieldAddr); isFA && b.kind == oNone {
+			return o.heldInField(fa.X, fa.Field, x.Type())
 		}
 	case *ssa.Field:
 		b := o.origin(x.X)
@@ -384,7 +428,7 @@ func (p *Prog) own() *ownAnalysis {
 		return p.ownA
 	}
 	o := &ownAnalysis{p: p, memo: map[ssa.Value]origin{}, active: map[ssa.Value]bool{},
-		mutates: map[*ssa.Function]map[int]string{}, capture: map[*ssa.Function]map[int]string{}, retRef: map[*ssa.Function]map[int]bool{}}
+		mutates: map[*ssa.Function]map[int]string{}, capture: map[*ssa.Function]map[int]string{}, retRef: map[*ssa.Function]map[int]bool{}, retHold: map[*ssa.Function]map[int]int{}}
 	p.ownA = o
 	set := func(m map[*ssa.Function]map[int]string, f *ssa.Function, i int, why string) bool {
 		if f == nil || i < 0 {
@@ -487,6 +531,35 @@ func (p *Prog) own() *ownAnalysis {
 						}
 					case *ssa.Return:
 						for ri := range x.Results {
+							if al, isAl := retVal(x, ri).(*ssa.Alloc); isAl && ri == 0 {
+								if _, isSt := deref(al.Type()).Underlying().(*types.Struct); isSt {
+									for _, ref := range *al.Referrers() {
+										fa, isFA := ref.(*ssa.FieldAddr)
+										if !isFA {
+											continue
+										}
+										for _, rr := range *fa.Referrers() {
+											st, isStore := rr.(*ssa.Store)
+											if !isStore || st.Addr != ssa.Value(fa) {
+												continue
+											}
+											so := o.origin(st.Val)
+											if so.kind != oRef && so.kind != oVal {
+												continue
+											}
+											if f, i := rootParam(so.root); f == fn && i >= 0 {
+												if o.retHold[fn] == nil {
+													o.retHold[fn] = map[int]int{}
+												}
+												if _, had := o.retHold[fn][fa.Field]; !had {
+													o.retHold[fn][fa.Field] = i
+													changed = true
+												}
+											}
+										}
+									}
+								}
+							}
 							ro := o.origin(retVal(x, ri))
 							if ro.kind == oRef || ro.kind == oVal {
 								if f, i := rootParam(ro.root); f == fn && i >= 0 {
